@@ -82,6 +82,7 @@ partial def parseSeq (toks : List String) : Option (List Instr × List String ×
       let ls ← (imm.splitOn ",").mapM (·.toNat?)
       cont (.brTable ls.dropLast (ls.getLastD 0)) rest
     | "call" => do cont (.call (← imm.toNat?)) rest
+    | "return_call" => do cont (.retCall (← imm.toNat?)) rest
     | "call_indirect" => do cont (.callIndirect (← imm.toNat?)) rest
     | _ =>
       match parseMemName name with
